@@ -94,6 +94,8 @@ def acc_C05(w):
                 s[1][l.market_id] -= l.volume
                 if l.buy_agent_id == l.sell_agent_id:
                     w.wit.inc("self_trade")
+                if l.price == 0:
+                    w.wit.inc("fill_at_price_zero")
             if len(e[2]) >= 2:
                 w.wit.inc("multi_fill_round")
             if len(e[2]) >= 4:
